@@ -386,13 +386,20 @@ func cmdMulti(args []string) {
 	}
 	n := 0
 	troubled := 0
+	marked := false
 	eachBehaviour(*in, func(i int, b run.M) {
 		if pf != nil {
 			pf.Seek(0, 0)
 			fmt.Fprintf(pf, "%-12d\n", i)
 		}
 		if troubled >= 3 {
-			return // the run has degenerated (every step waits for its timeout): what was recorded so far is judged
+			// the run has degenerated (every step waits for its timeout): what was recorded so far is judged, and the
+			// rest is recorded as not run - the check then ends without a verdict instead of passing on a fraction
+			if !marked {
+				tw.writeExec([]run.M{{"k": "cfg", "c": run.M{}}, {"k": "degenerated"}}, i)
+				marked = true
+			}
+			return
 		}
 		rng := rand.New(rand.NewSource(*seed*1000003 + int64(i+*seedIndex)))
 		b["_i"] = i + *seedIndex
